@@ -2,14 +2,27 @@ import Neutrino.Props.C14
 open Neutrino.Import
 #print axioms C14_success_counterexample
 #print axioms C14_success_partial
+#print axioms C14_success_chain_valid_partial
+#print axioms C14_success_sample_partial
+#print axioms C14_success_all_partial
 #print axioms C14_idempotent_partial
+#print axioms C14_idempotent_any_batch_partial
 #print axioms C14_failure_counterexample
 #print axioms C14_failure_partial
+#print axioms C14_failure_all_partial
+#print axioms C14_failure_block_ahead_partial
+#print axioms C14_success_block_ahead_partial
+#print axioms C14_block_ahead_always_fails
 #print axioms C14_source_facts
+#print axioms block_ahead_unchanged
+#print axioms chain_level_zero
 #print axioms import_noop_when_full
 #print axioms failContent_mk
 #print axioms healthy_eq_mk
 #print axioms healthy_len
 #print axioms appendLoop_both
 #print axioms importRun_zero
-#print axioms importRun_covered
+#print axioms importRun_covered_gen
+#print axioms continuity_overlap_iff
+#print axioms continuity_after_success
+#print axioms block_ahead_checks_fail
